@@ -298,7 +298,9 @@ def assign_externals(body, prefix, ext):
 def _walk(st, pos, ext):
     op = st["op"]
     if "_ext" in st:
-        ext[pos] = st.pop("_ext")
+        # the script stays attached to its statement (so that shrinking a program keeps them together);
+        # the interpreter registers it under the statement's position when the statement runs
+        st["ext"] = st.pop("_ext")
     if op == "try":
         _walk(st["stmt"], pos + "t", ext)
         assign_externals(st.get("handler", []), pos + "/h", ext)
